@@ -98,59 +98,116 @@ struct Stats {
 // and fill obs. Returns normally on completion.
 typedef std::function<void(std::string &obs)> Scenario;
 
-inline Exec run_one(const std::vector<int> &prefix, const Config &cfg, const Scenario &sc) {
-  int p[2];
-  if (pipe(p) != 0) { perror("pipe"); _exit(95); }
-  fflush(stdout);
-  pid_t pid = fork();
-  if (pid == 0) {
-    close(p[0]);
-    g_wfd = p[1];
-    std::string obs;
-    g_obs = &obs;
-    vs_nprefix = (int)prefix.size();
-    for (size_t i = 0; i < prefix.size(); i++) vs_prefix[i] = prefix[i];
-    vs_sleepmode = cfg.sleep ? 1 : 0;
-    vs_spurious = cfg.sleep ? 0 : cfg.spurious;
-    vs_horizon = cfg.horizon;
-    vs_on_fatal = on_fatal;
-    signal(SIGALRM, on_alarm);
+[[noreturn]] inline void child_main(const std::vector<int> &prefix, const Config &cfg, const Scenario &sc, int wfd) {
+  g_wfd = wfd;
+  std::string obs;
+  g_obs = &obs;
+  vs_nprefix = (int)prefix.size();
+  for (size_t i = 0; i < prefix.size(); i++) vs_prefix[i] = prefix[i];
+  vs_sleepmode = cfg.sleep ? 1 : 0;
+  vs_spurious = cfg.sleep ? 0 : cfg.spurious;
+  vs_horizon = cfg.horizon;
+  vs_on_fatal = on_fatal;
+  signal(SIGALRM, on_alarm);
 #if !defined(__SANITIZE_ADDRESS__)
-    signal(SIGSEGV, on_crash); signal(SIGBUS, on_crash); signal(SIGFPE, on_crash); signal(SIGABRT, on_crash); signal(SIGILL, on_crash);
+  signal(SIGSEGV, on_crash); signal(SIGBUS, on_crash); signal(SIGFPE, on_crash); signal(SIGABRT, on_crash); signal(SIGILL, on_crash);
 #endif
-    alarm(cfg.alarm_s);
-    sc(obs);
-    child_write(OC_OK, "");
-    _exit(0);
-  }
-  close(p[1]);
-  Exec r;
+  alarm(cfg.alarm_s);
+  sc(obs);
+  child_write(OC_OK, "");
+  _exit(0);
+}
+inline bool read_all(int fd, void *buf, size_t n) { char *c = (char *)buf; size_t got = 0; while (got < n) { ssize_t k = read(fd, c + got, n - got); if (k <= 0) return false; got += k; } return true; }
+inline void parse_exec(Exec &r, const std::string &blob, int status) {
+  size_t off = 0;
+  auto rd = [&](void *buf, size_t n) { if (off + n > blob.size()) return false; memcpy(buf, blob.data() + off, n); off += n; return true; };
   int32_t hdr[6];
-  auto rd = [&](void *buf, size_t n) { char *c = (char *)buf; size_t got = 0; while (got < n) { ssize_t k = read(p[0], c + got, n - got); if (k <= 0) return false; got += k; } return true; };
   if (rd(hdr, sizeof hdr) && hdr[5] == 0x5a5a) {
     r.outcome = hdr[0];
     r.pts.resize(hdr[1]);
     r.hashes.resize(hdr[1]);
+    r.parts.resize(4 * (size_t)hdr[1]);
     r.steps = hdr[2];
     r.obs.resize(hdr[3]);
     r.fatal.resize(hdr[4]);
     rd(r.pts.data(), sizeof(vs_pt_t) * hdr[1]);
     rd(r.hashes.data(), sizeof(uint64_t) * hdr[1]);
-    r.parts.resize(4 * hdr[1]);
     rd(r.parts.data(), sizeof(uint64_t) * 4 * hdr[1]);
     if (hdr[3]) rd(&r.obs[0], hdr[3]);
     if (hdr[4]) rd(&r.fatal[0], hdr[4]);
   }
-  close(p[0]);
-  int st = 0;
-  waitpid(pid, &st, 0);
-  if (WIFSIGNALED(st)) r.sig = WTERMSIG(st); else r.exitcode = WEXITSTATUS(st);
+  if (WIFSIGNALED(status)) r.sig = WTERMSIG(status); else r.exitcode = WEXITSTATUS(status);
   if (r.outcome == -1) {
     if (r.sig) { r.outcome = OC_SIGNAL; r.fatal = "killed by signal " + std::to_string(r.sig); }
     else { r.outcome = OC_EXIT; r.fatal = "exit status " + std::to_string(r.exitcode); }
   }
+}
+// fork one child for one execution, collect everything it writes
+inline void fork_and_collect(const std::vector<int> &prefix, const Config &cfg, const Scenario &sc, std::string &blob, int &status) {
+  int p[2];
+  if (pipe(p) != 0) { perror("pipe"); _exit(95); }
+  fflush(stdout);
+  pid_t pid = fork();
+  if (pid == 0) { close(p[0]); child_main(prefix, cfg, sc, p[1]); }
+  close(p[1]);
+  blob.clear();
+  char buf[65536];
+  ssize_t k;
+  while ((k = read(p[0], buf, sizeof buf)) > 0) blob.append(buf, (size_t)k);
+  close(p[0]);
+  status = 0;
+  waitpid(pid, &status, 0);
+}
+inline Exec run_one(const std::vector<int> &prefix, const Config &cfg, const Scenario &sc) {
+  std::string blob;
+  int status;
+  fork_and_collect(prefix, cfg, sc, blob, status);
+  Exec r;
+  parse_exec(r, blob, status);
   return r;
 }
+// A small forked "zygote" serves executions for a long search: fork() is proportional to the parent's memory, and the
+// explorer's own tables (state sets, successor map) grow into hundreds of MB while the zygote stays small.
+struct Zygote {
+  int to = -1, from = -1;
+  pid_t pid = -1;
+  bool start(const Config &cfg, const Scenario &sc) {
+    int a[2], b[2];
+    if (pipe(a) != 0 || pipe(b) != 0) return false;
+    fflush(stdout);
+    pid = fork();
+    if (pid == 0) {
+      close(a[1]); close(b[0]);
+      for (;;) {
+        int32_t n;
+        if (!read_all(a[0], &n, 4) || n < 0) _exit(0);
+        std::vector<int> prefix(n);
+        if (n && !read_all(a[0], prefix.data(), 4 * (size_t)n)) _exit(0);
+        std::string blob;
+        int status;
+        fork_and_collect(prefix, cfg, sc, blob, status);
+        int32_t hdr[2] = {(int32_t)blob.size(), status};
+        write_all(b[1], hdr, sizeof hdr);
+        write_all(b[1], blob.data(), blob.size());
+      }
+    }
+    close(a[0]); close(b[1]);
+    to = a[1]; from = b[0];
+    return pid > 0;
+  }
+  bool run(const std::vector<int> &prefix, Exec &r) {
+    int32_t n = (int32_t)prefix.size();
+    write_all(to, &n, 4);
+    if (n) write_all(to, prefix.data(), 4 * (size_t)n);
+    int32_t hdr[2];
+    if (!read_all(from, hdr, sizeof hdr)) return false;
+    std::string blob((size_t)hdr[0], 0);
+    if (hdr[0] && !read_all(from, &blob[0], (size_t)hdr[0])) return false;
+    parse_exec(r, blob, hdr[1]);
+    return true;
+  }
+  void stop() { if (pid > 0) { int32_t n = -1; write_all(to, &n, 4); close(to); close(from); waitpid(pid, nullptr, 0); pid = -1; } }
+};
 
 inline std::vector<int> choices_of(const Exec &x) {
   std::vector<int> s;
@@ -176,7 +233,9 @@ struct Explorer {
   std::unordered_map<uint64_t, std::vector<uint64_t>> succparts; // debugging (VS_DEBUG_ABS)
   std::unordered_map<uint64_t, std::vector<int>> succwho;
 
+  long timeouts = 0; // executions that ended in the wall-clock alarm: each costs alarm_s seconds, three are enough to report
   bool out_of_budget() {
+    if (timeouts >= 3) { st.capped = true; return true; }
     if (cfg.maxexec >= 0 && st.executions >= cfg.maxexec) { st.capped = true; return true; }
     if (cfg.deadline_s > 0 && std::chrono::duration<double>(std::chrono::steady_clock::now() - t0).count() > cfg.deadline_s) { st.capped = true; return true; }
     if (cfg.until_epoch > 0 && (double)time(nullptr) > cfg.until_epoch) { st.capped = true; return true; }
@@ -186,6 +245,7 @@ struct Explorer {
     st.executions++;
     st.transitions += x.steps;
     if (x.outcome == OC_SLEEPBLOCKED) st.sleepblocked++;
+    if (x.outcome == OC_TIMEOUT) timeouts++;
     st.outcomes[outcome_name(x.outcome)]++;
     if (x.outcome != OC_SLEEPBLOCKED) st.observations[std::string(outcome_name(x.outcome)) + "|" + x.obs]++;
     for (auto h : x.hashes) st.states.insert(h);
@@ -197,7 +257,8 @@ struct Explorer {
   void explore(const std::vector<int> &prefix, int depth) {
     if (out_of_budget()) return;
     bool mine = true;
-    Exec x = run_one(prefix, cfg, sc);
+    Exec x;
+    if (!(zy.pid > 0 && zy.run(prefix, x))) x = run_one(prefix, cfg, sc);
     if (x.outcome == OC_DIVERGE) { fprintf(stderr, "explorer: replay divergence (nondeterminism not under control)\n"); _exit(94); }
     if (depth == 0 && cfg.shard != 0) mine = false; // the root execution is accounted by shard 0
     if (mine) account(x, prefix);
@@ -250,9 +311,12 @@ struct Explorer {
       }
     }
   }
+  Zygote zy;
   void run() {
     t0 = std::chrono::steady_clock::now();
+    zy.start(cfg, sc);
     explore({}, 0);
+    zy.stop();
   }
 };
 
